@@ -26,6 +26,12 @@ def run_encode(case):
     rfds = []
     ref = R.encode(sig, trees, off, le, rfds)
     out = []
+    try:
+        n2, data2, fds2 = C.do_marshal(M, case)      # asked again, the encoder gives the same bytes (nothing is remembered)
+        if (n2, data2, fds2) != (n, data, fds):
+            out.append(Disc('enc.not-repeatable', 'sig=%r: second encoding differs from the first' % sig))
+    except Exception as e:
+        out.append(Disc(exc_key(e, 'enc.marshal-again'), exc_detail(e)))
     if data != ref:
         out.append(Disc('enc.bytes-differ', 'sig=%r off=%d le=%s\n txdbus=%s\n ref   =%s' % (
             sig, off, le, data.hex(), ref.hex())))
